@@ -17,7 +17,7 @@ def gen_same_dims(rng, n, square=False, relation=None):
     bases = {}
     for d in dims:
         bases[d], _ = gen.labels_of_kind(rng, kinds[d], size if square else rng.randint(1, 3), "inc")
-    relation = relation or rng.choice(["equal", "equal", "permuted", "overlapping", "disjoint", "equal"])
+    relation = relation or rng.choice(["equal", "equal", "permuted", "overlapping", "disjoint", "equal", "nearly"])
     arrays = []
     for k in range(n):
         order = list(dims)
@@ -29,6 +29,9 @@ def gen_same_dims(rng, n, square=False, relation=None):
                 labels = list(bases[d])
             elif relation == "permuted":
                 labels = list(bases[d]); rng.shuffle(labels)
+            elif relation == "nearly":
+                # float labels a hair away from the first array's (np.allclose, but different labels); others equal
+                labels = related_labels(rng, kinds[d], bases[d], "nearly")
             elif relation == "overlapping":
                 labels = related_labels(rng, kinds[d], bases[d], "overlapping") or list(bases[d])
                 labels = order_labels(rng, labels, "inc")
